@@ -21,6 +21,25 @@ def build(tree, depth, emb, d, ids, shape=None, late=0):
     return f, f, (lambda: {"rank0": 0, "root": proj.proj_fiber(f), "ranks": []})
 
 
+def leaves(tree, prefix=()):
+    for c, q in tree["e"]:
+        if q["k"] == "F":
+            yield from leaves(q, prefix + (c,))
+        elif q["k"] == "L":
+            yield prefix + (c,), q["v"]
+
+
+def ask_everything(x, other, r):
+    """one pass of every content question on x and on each fiber below r (whatever an implementation might remember, it remembers now)"""
+    _ = (x == other), (other == x), (x != other), (x == x)
+    def walk(f):
+        _ = f.isEmpty(), f.countValues(), f.countValues(recursive=False), f.nonEmpty(), len(f), f.maxCoord(), f.minCoord(), f.getActive(), f.estimateShape()
+        for q in f.payloads:
+            if isinstance(q, Fiber):
+                walk(q)
+    walk(r)
+
+
 def execute(case):
     depth, d = case["depth"], case.get("d", 0)
     ea, eb = case.get("emb_a", "fiber"), case.get("emb_b", "fiber")
@@ -35,6 +54,15 @@ def execute(case):
         C, rc, pc = build(out["c"], depth, eb, d, ids_b, None, late)
         # compare like with like: tensor==tensor, otherwise the root fibers (ownership must not matter)
         xa, xb, xc = (A, Bo, C) if out["tensors"] else (ra, rb, rc)
+        if case.get("a2"):
+            # asked, then changed in place through references (no element added or removed), then asked again: the recorded answers are about the tree as it is NOW
+            ask_everything(xa, xb, ra)
+            new = dict(leaves(case["a2"]))
+            for pt, v in leaves(case["a"]):
+                if new[pt] != v:
+                    ref = ra.getPayloadRef(*pt)
+                    ref <<= proj.real(new[pt])
+            out["a"] = case["a2"]
         out["pre"] = [pa(), pb()]
         out["eq_ab"] = bool(xa == xb)
         out["eq_ba"] = bool(xb == xa)
